@@ -229,12 +229,15 @@ def check(prop_id, tier, seed, nproc=None, timeout=None):
         if not_done:
             errors.append("watchdog: %d job(s) still running after %.0f s (inconclusive)" % (len(not_done), timeout))
     finally:
-        for p in list(getattr(pool, "_processes", {}).values()):
-            try:
-                p.kill()
-            except Exception:
-                pass
-        pool.shutdown(wait=False, cancel_futures=True)
+        if errors and any("watchdog" in e for e in errors):
+            for p in list(getattr(pool, "_processes", {}).values()):  # stuck workers: kill, do not wait
+                try:
+                    p.kill()
+                except Exception:
+                    pass
+            pool.shutdown(wait=False, cancel_futures=True)
+        else:
+            pool.shutdown(wait=True)
 
     for r in results:
         if r.get("error"):
